@@ -171,3 +171,17 @@ Example unit_spellings_witness :
   normalize_integer_epoch (-100000001 * 1000 + 500) = Some (-100000001)
   /\ 10 ^ 11 <= Z.abs (-100000001 * 1000 + 500) < 10 ^ 14.
 Proof. split; [vm_compute; reflexivity | lia]. Qed.
+
+(** ** A JSON integer below i64::MIN reaches [normalize_json_number] as a float
+    (serde_json keeps it as f64) and is read as float SECONDS, saturating; the
+    same digits as a string are normalised as nanoseconds. Known finding of C16. *)
+Example json_integer_below_i64_refuted :
+  normalize_json_number (JDec (-9999999997000000001) 0) = Some (- 2 ^ 63)
+  /\ normalize_integer_epoch (-9999999997000000001) = Some (-9999999998).
+Proof. split; vm_compute; reflexivity. Qed.
+
+(** Outside that class JSON integers and numeric strings agree: both go through
+    [normalize_integer_epoch]. *)
+Lemma json_integer_same_as_string : forall z,
+  normalize_json_number (JInt z) = normalize_integer_epoch z.
+Proof. reflexivity. Qed.
